@@ -234,6 +234,22 @@ func defects() []*defect {
 		hdr("query-added", false, func(r *s3c.Req, k *kit) {
 			chain(r, func(b *s3c.Built) { b.Target = addParam(b.Target, "c02extra=1") })
 		}),
+		// a pair added after signing whose text a lenient query parser drops without a word (a raw ';', a broken
+		// percent escape): if the verifier parses the query with such a parser while the router and the handlers
+		// use a stricter one, the pair is invisible to the proof and effective in the operation. The added name is
+		// either inert or a sub-resource selector, which turns the signed request into a different operation.
+		hdr("query-added-unparsable-pair", true, func(r *s3c.Req, k *kit) {
+			names := []string{"c02extra", "tagging", "acl", "policy", "versions", "uploads", "versionId", "c02extra"}
+			vals := []string{";", "%zz", "%", "a;b", "%f", ";"}
+			kv := names[k.rng.Intn(len(names))] + "=" + vals[k.rng.Intn(len(vals))]
+			chain(r, func(b *s3c.Built) { b.Target = addParam(b.Target, kv) })
+		}),
+		pre("presign-query-added-unparsable-pair", false, func(r *s3c.Req, k *kit) {
+			names := []string{"c02extra", "tagging", "acl", "policy", "versions"}
+			vals := []string{";", "%zz", "%", "a;b"}
+			kv := names[k.rng.Intn(len(names))] + "=" + vals[k.rng.Intn(len(vals))]
+			chain(r, func(b *s3c.Built) { b.Target = addParam(b.Target, kv) })
+		}),
 		{name: "query-altered", kind: kHeader, applies: func(_ *catalog.Entry, _ class, rq *s3c.Req) bool {
 			return valuedParam(rq.Query) >= 0
 		}, apply: func(r *s3c.Req, k *kit) {
